@@ -89,7 +89,7 @@ func checkC13(c *Ctx) {
 	c.Clause("every exit path records exactly one outcome: rate-limited or response(success|failure)")
 	c.Clause("the in-flight gauge increment in proxyRequest is paired with a decrement on every exit including the ErrAbortHandler panic exit, each mirrored to the metrics gauge")
 	c.Clause("each proxied request records exactly one per-backend sample, named after the backend that served it, with the same success flag as the global outcome; the flag is status < 500 of the status the wrapper captured")
-	c.Clause("counters are atomic-only / under Metrics.mutex")
+	c.Clause("counters are atomic-only / under Metrics.mutex; the 64-bit atomic counters are 8-byte aligned under the 386/arm layout (otherwise counting panics on 32-bit platforms)")
 	c.Clause("inside the collector each record call moves exactly its own counter by exactly one: RecordRequest→total, RecordResponse(ok)→successful xor failed, RecordRateLimitedRequest→rate-limited, RecordBackendRequest(name, ok)→that backend's total and its successful xor failed")
 	c.Clause("reading the in-flight counter and publishing the reading happen in one critical section per backend (two finishing requests cannot publish out of order); only the ±1 at request start/end and the constructor write the counter")
 	c.Clause("the status the outcome derives from is the last one written (an interim 1xx does not mask the final status)")
@@ -240,6 +240,7 @@ func checkC13(c *Ctx) {
 	lockDiscipline(c, func(k string) bool {
 		return strings.HasPrefix(k, "metrics.Metrics.") || strings.HasPrefix(k, "metrics.BackendMetrics.") || k == "loadbalancer.Backend.ActiveConnections"
 	})
+	c.Floor("atomic64-aligned", atomic64Aligned(c, func(k string) bool { return strings.HasPrefix(k, "metrics.Metrics.") }), 4, "metrics counters operated on with 64-bit atomics")
 }
 
 // gaugeWriters: the in-flight gauge is changed only by ±1 in Increment/DecrementConnections, which
